@@ -653,7 +653,10 @@ class ArrayUnit(Unit):
         t = self.tname
         vals = []
         if t == 'String':
-            vals = ['', 'a', 'ab', 'é', '€', '𝄞', 'x' * 127, 'x' * 128, 'é' * 64, 'x' * 16383, 'x' * 16384, 'a€b𝄞c']
+            vals = ['', 'a', 'ab', 'é', '€', '𝄞', 'x' * 127, 'x' * 128, 'é' * 64, 'x' * 16383, 'x' * 16384, 'a€b𝄞c',
+                    # characters that lenient codecs, normalisation or C-string handling would alter
+                    '\ufeff', '\ufeffserver', 'a\ufeffb', '\x00', 'a\x00b', '\r\n', ' padded ', '\u00a0', 'e\u0301', '\u2028', '\ufffd',
+                    '\U0010ffff', '\x7f\x80\u07ff\u0800\uffff']
         elif t == 'UUID':
             vals = [str(uuid_mod.UUID(int=rng.getrandbits(128))) for _ in range(20)] + \
                    ['00000000-0000-0000-0000-000000000000', 'ffffffff-ffff-ffff-ffff-ffffffffffff']
@@ -757,6 +760,172 @@ class LengthPrefixCut(Unit):
         T = getattr(B, tn)
         k, r = native_call(T.read, io.BytesIO(data))
         return dict(confirmed=k != 'raise', call='%s.read(BytesIO(%r))' % (tn, data), observed='%s %r' % (k, r))
+
+
+# ------------------------------------------------------------------------------------------
+# PacketBuffer: the in-memory sink / source every encoding is observed through
+# ------------------------------------------------------------------------------------------
+PB_ = 'minecraft.networking.packets.packet_buffer.PacketBuffer.'
+
+
+class BufferContract(Unit):
+    """PacketBuffer against its abstract view (content, cursor), from ANY reachable state (arbitrary content of symbolic
+    length; cursor at the end, rewound, or rewound and k bytes read): send appends; get_writable returns the content as an
+    immutable byte string and changes nothing; reset empties whatever the cursor position; reset_cursor rewinds; read / recv
+    hand out the content from the cursor on.  The real method bodies run on the assumed BytesIO model."""
+    prop = 'C02'
+    name = 'C02.PacketBuffer'
+    int_mode = 'int'
+    functions = tuple(PB_ + m for m in ('__init__', 'send', 'read', 'recv', 'reset', 'reset_cursor', 'get_writable'))
+    trusted = ('io.BytesIO (write at the end, read, seek(0), getvalue, tell, getbuffer pins the buffer)',)
+
+    def setup(self, I):
+        from .codec import install_buffer_model
+        install_buffer_model(I)
+
+    def run(self, I):
+        from minecraft.networking.packets.packet_buffer import PacketBuffer
+        E = I.E
+        call = lambda obj, name, *a: I.call(I.getattr_(obj, name), *a)     # noqa
+        buf = I.call(PacketBuffer)
+        c0 = SBytes([E.new_blob('content', lo=0, hi=1 << 20)])
+        call(buf, 'send', c0)
+        cur = ('end', 'rewound', 'mid')[E.fork(3, 'cursor')]
+        if cur != 'end':
+            call(buf, 'reset_cursor')
+        if cur == 'mid':
+            k = E.new_int('k', 0, 1 << 20)
+            E.assume(k <= c0.length())
+            call(buf, 'read', k)
+        op = ('get_writable', 'reset', 'reset_cursor', 'read', 'send')[E.fork(5, 'operation')]
+        v = SBytes([E.new_blob('v', lo=0, hi=1 << 20)])
+        try:
+            if op == 'get_writable':
+                r = call(buf, 'get_writable')
+                E.check('buffer.writable-is-bytes', isinstance(r, (bytes, SBytes)),
+                        note='get_writable returns an immutable byte string (a snapshot), not %s' % type(r).__name__)
+                if not isinstance(r, (bytes, SBytes)):
+                    return None
+                E.check('buffer.writable-is-content', SBytes.of(r) == c0, note='everything sent since the last reset, in order')
+                r2 = call(buf, 'get_writable')
+                E.check('buffer.writable-pure', isinstance(r2, (bytes, SBytes)) and SBytes.of(r2) == c0)
+                if cur == 'end':
+                    call(buf, 'send', v)          # a snapshot that is still referenced does not block or alias later writes
+                    E.check('buffer.send-after-snapshot', SBytes.of(call(buf, 'get_writable')) == c0 + v and SBytes.of(r) == c0)
+            elif op == 'reset':
+                call(buf, 'reset')
+                E.check('buffer.reset-empties', I.equals(SBytes.of(call(buf, 'get_writable')).length(), 0),
+                        note='whatever the content and wherever the cursor (cursor %s)' % cur)
+                E.check('buffer.reset-nothing-to-read', I.equals(SBytes.of(call(buf, 'read')).length(), 0))
+                call(buf, 'send', v)
+                E.check('buffer.reset-then-send', SBytes.of(call(buf, 'get_writable')) == v,
+                        note='after reset the buffer holds exactly what is sent afterwards')
+                call(buf, 'reset_cursor')
+                E.check('buffer.reset-then-read', SBytes.of(call(buf, 'read')) == v)
+            elif op == 'reset_cursor':
+                call(buf, 'reset_cursor')
+                E.check('buffer.rewind-reads-all', SBytes.of(call(buf, 'read')) == c0)
+                E.check('buffer.rewind-keeps-content', SBytes.of(call(buf, 'get_writable')) == c0)
+            elif op == 'read':
+                if cur != 'rewound':
+                    return None
+                n = E.new_int('n', 0, 1 << 20)
+                which = ('read', 'recv')[E.fork(2, 'read-or-recv')]
+                a = SBytes.of(call(buf, which, n))
+                b = SBytes.of(call(buf, which))
+                ln = a.length()
+                E.check('buffer.read-length', Or(And(n <= c0.length(), I.equals(ln, n)), And(n > c0.length(), I.equals(ln, c0.length()))),
+                        note='%s(n) returns min(n, remaining) bytes' % which)
+                E.check('buffer.read-in-order', a + b == c0, note='%s(n) followed by %s() yields the content, in order, once' % (which, which))
+                E.check('buffer.read-keeps-content', SBytes.of(call(buf, 'get_writable')) == c0)
+            else:
+                if cur != 'end':
+                    return None
+                v2 = SBytes([E.new_blob('v2', lo=0, hi=1 << 20)])
+                call(buf, 'send', v)
+                call(buf, 'send', v2)
+                E.check('buffer.send-appends', SBytes.of(call(buf, 'get_writable')) == c0 + v + v2)
+        except PyRaise as e:
+            E.check('buffer.no-raise', False, note='%s with the cursor %s raised %r' % (op, cur, e.exc))
+        return None
+
+    def replay(self, model, label):
+        return replay_buffer()
+
+    def bounded(self, rng, tier):
+        rp = replay_buffer(rng, rounds=300 if tier == 'quick' else 3000)
+        return dict(name='C02.PacketBuffer.op-sequences', evaluations=rp['n'], bound='seeded operation sequences of up to 12 steps '
+                    '(send / read / recv / reset / reset_cursor / get_writable with retained snapshots) against a reference '
+                    'implementation of the abstract view', failures=[dict(call=rp['call'], observed=rp['observed'],
+                                                                          witness='packet-buffer')] if rp['confirmed'] else [])
+
+
+def replay_buffer(rng=None, rounds=300):
+    """The real PacketBuffer against (content, cursor) kept by hand; snapshots returned by get_writable are kept alive and
+    must stay what they were."""
+    import random
+    from minecraft.networking.packets.packet_buffer import PacketBuffer
+    rng = rng or random.Random(12)
+    n = 0
+    scripted = [['send', 'reset_cursor', 'reset', 'send-short', 'get_writable'], ['send', 'get_writable', 'send', 'get_writable'],
+                ['send', 'reset_cursor', 'read', 'reset', 'get_writable', 'read']]
+    for rd in range(rounds):
+        buf = PacketBuffer()
+        content, pos, snaps, hist = bytearray(), 0, [], []
+        ops = scripted[rd] if rd < len(scripted) else [rng.choice(['send', 'send', 'read', 'recv', 'reset', 'reset_cursor', 'get_writable'])
+                                                       for _ in range(rng.randrange(1, 13))]
+        for op in ops:
+            n += 1
+            hist.append(op)
+            bad = None
+            if op in ('send', 'send-short'):
+                if pos != len(content):
+                    hist.pop()
+                    continue                   # writing in the middle is not part of the abstract view
+                data = bytes(rng.getrandbits(8) for _ in range(1 if op == 'send-short' else rng.randrange(0, 40)))
+                k, r = native_call(buf.send, data)
+                content += data
+                pos = len(content)
+                if k != 'ok':
+                    bad = 'send raised %r' % (r,)
+            elif op in ('read', 'recv'):
+                ln = rng.choice([None, 0, 1, 5, 1000])
+                k, r = native_call(getattr(buf, op), ln) if ln is not None or rng.random() < 0.5 else native_call(getattr(buf, op))
+                want = bytes(content[pos:] if ln is None else content[pos:pos + ln])
+                pos += len(want)
+                if k != 'ok' or bytes(r) != want:
+                    bad = '%s(%r) gave %s %r, the abstract view has %r' % (op, ln, k, r if k != 'ok' else bytes(r)[:20], want[:20])
+            elif op == 'reset':
+                k, r = native_call(buf.reset)
+                content, pos = bytearray(), 0
+                if k != 'ok':
+                    bad = 'reset raised %r' % (r,)
+            elif op == 'reset_cursor':
+                k, r = native_call(buf.reset_cursor)
+                pos = 0
+                if k != 'ok':
+                    bad = 'reset_cursor raised %r' % (r,)
+            else:
+                k, r = native_call(buf.get_writable)
+                if k != 'ok':
+                    bad = 'get_writable raised %r' % (r,)
+                elif type(r) is not bytes:
+                    bad = 'get_writable returned a %s, not bytes' % type(r).__name__
+                    snaps.append((r, bytes(content)))
+                elif r != bytes(content):
+                    bad = 'get_writable returned %d bytes (%r..), %d were sent since the last reset (%r..)' % (len(r), r[:12], len(content), bytes(content[:12]))
+                else:
+                    snaps.append((r, bytes(content)))
+            if bad is None:
+                for sn, was in snaps:
+                    try:
+                        if bytes(sn) != was:
+                            bad = 'a byte string returned earlier by get_writable changed afterwards'
+                    except Exception as e:      # noqa
+                        bad = 'a value returned earlier by get_writable is no longer readable: %r' % (e,)
+            if bad:
+                return dict(confirmed=True, n=n, call='PacketBuffer: ' + ', '.join(hist), observed=bad)
+    return dict(confirmed=False, n=n, call='PacketBuffer operation sequences', observed='conform')
 
 
 # ------------------------------------------------------------------------------------------
@@ -1094,7 +1263,7 @@ def units(tier):
     us += [LengthPrefixCut()]
     us += [PrefixedArrayUnit(VarInt, Byte), PrefixedArrayUnit(Integer, Short), PrefixedArrayUnit(VarInt, VarInt),
            PrefixedArrayUnit(VarInt, Byte, nested=True)]
-    us += [PrefixedArrayAnyLength(), Dispatch()]
+    us += [PrefixedArrayAnyLength(), Dispatch(), BufferContract()]
     # VarInt / VarLong are scalar wire types too: their byte-level contracts (C03) are claimed here as well
     from . import c03
     for u, nm in ((c03.ReadArbitrary(VarInt), 'C02.VarInt.read'), (c03.ReadArbitrary(c03.VarLong), 'C02.VarLong.read'),
